@@ -15,14 +15,15 @@
    * a proposal message is its type, its requested spend (EGF only) and what executing it does:
      an effect on the rest of the application (AOk tag), a failure (AFail) or a bank send from the
      governance module account (AGovSend) — the one message kind whose effect is on modelled state.
-     Messages whose handler reads or writes the governance module's OWN state (gov MsgDeposit /
-     MsgSubmitProposal / MsgVote / MsgCancelProposal signed by the module account) have no action
-     here: a history containing one is outside the model (the harness runs such histories under the
-     monitor only).  In particular MsgDeposit with the module account as depositor pledges coins
-     the account holds for other proposals — on the real side it belongs to the same class as
-     AGovSend ("the governance account spends what are other proposals' deposits", finding C15-2);
-     the guard op_no_govsend of the conservation theorems therefore reads, for real histories:
-     no proposal message sends from the module account AND none deposits from it.
+     Three shapes of "a passed proposal moves coins out of the module account" are modelled:
+     AGovSend (bank MsgSend from it; also the crisis constant fee charged to it by a
+     MsgVerifyInvariant it sends, when the invariant holds — when the fee charge itself breaks the
+     checked invariant the handler panics and the message is an AFail) and AGovDeposit (gov MsgDeposit
+     with it as depositor: a deposit record without funds, account id gov_acct = -1).  Because the
+     refund loops walk the records in address order and the module account's own record is a transfer
+     to itself, ordinary account ids carry in their parity on which side of the module account their
+     address sorts.  Other messages acting on the governance module's own state (MsgSubmitProposal /
+     MsgVote / MsgCancelProposal signed by the module account) have no action.
    * the inactive / active queues are the sets {status = deposit} / {status = voting} ordered by
      (end time, id); the harness compares them with the stored queues after every step.
    * closed proposals stay in the list as ghosts (status SDropped / SCancelled = deleted from the
@@ -108,7 +109,10 @@ Definition ty_none : Z := 0.
 Definition ty_egf : Z := 1.
 Definition ty_any : Z := 99.
 
-Inductive action := AOk (tag : Z) | AFail | AGovSend (to amt : Z).
+Inductive action :=
+| AOk (tag : Z) | AFail
+| AGovSend (to amt : Z)        (* bank MsgSend from the module account (also: a fee charged to it) *)
+| AGovDeposit (pid amt : Z).   (* gov MsgDeposit with the module account as depositor *)
 Record msg := { m_type : Z; m_spend : coins; m_act : action }.
 
 Record keyfun := { kf_key : list msg -> Z; kf_is_egf : msg -> bool }.
@@ -322,7 +326,7 @@ Definition new_proposal (P : params) (id now proposer : Z) (ms : list msg) (expe
 Definition submit (P : params) (kf : keyfun) (now : Z) (s : state) (proposer : Z) (ms : list msg)
            (amt : Z) (expedited valid bad_denom : bool) : result * state :=
   if negb (check_msgs ms) then (RErr EMixed, s)
-  else if amt <? 0 then (RErr EInvalid, s)
+  else if (amt <? 0) || (proposer <? 0) then (RErr EInvalid, s) (* account ids are non-negative *)
   else if negb (initial_ok P expedited amt) then (RErr EDepositSmall, s)
   else if bad_denom then (RErr EDenom, s)
   else if negb valid then (RErr EInvalid, s)
@@ -393,29 +397,65 @@ Definition close_as (p : proposal) (st : status) : proposal :=
      p_act_total := p_act_total p; p_act_req := p_act_req p; p_act_period := p_act_period p;
      p_quorum_used := p_quorum_used p |}.
 
-Fixpoint refund_all (b : Z -> Z) (l : list (Z * Z)) : Z -> Z :=
-  match l with [] => b | (d, a) :: r => refund_all (bal_add b d a) r end.
+(* The governance module account as a depositor (gov MsgDeposit executed by a passed proposal):
+   account id -1.  Ordinary account ids are non-negative and carry in their parity where their
+   address sorts relative to the module account's — even: before it, odd: after it — because the
+   refund loops walk a proposal's deposit records in address order. *)
+Definition gov_acct : Z := -1.
+Definition sorts_before_gov (d : Z) : bool := Z.even d.
 
-(* RefundAndDeleteDeposits / DeleteAndBurnDeposits: None = the bank refuses (module account short) *)
+(* the module account's own records / the records paid before its turn comes *)
+Fixpoint gov_part (l : list (Z * Z)) : Z :=
+  match l with [] => 0 | (d, a) :: r => (if d =? gov_acct then a else 0) + gov_part r end.
+Fixpoint before_part (l : list (Z * Z)) : Z :=
+  match l with
+  | [] => 0
+  | (d, a) :: r => (if negb (d =? gov_acct) && sorts_before_gov d then a else 0) + before_part r
+  end.
+
+(* the module account's own record is "refunded" by a transfer to itself *)
+Fixpoint refund_all (b : Z -> Z) (l : list (Z * Z)) : Z -> Z :=
+  match l with
+  | [] => b
+  | (d, a) :: r => if d =? gov_acct then refund_all b r else refund_all (bal_add b d a) r
+  end.
+
+(* RefundAndDeleteDeposits / DeleteAndBurnDeposits: None = the bank refuses (module account short).
+   Burn: one BurnCoins of the sum of all records.  Refund: record by record in address order; every
+   transfer needs the balance at that moment, the self-transfer of the module account's own record
+   leaves it unchanged: the loop succeeds iff the records before the module account's plus its own
+   fit, and all records of other depositors fit.  A record of the module account has no coins behind
+   it: refunding it cancels the pledge (gov_spent), burning it burns other proposals' coins. *)
 Definition pay_out (s : state) (p : proposal) (burn : bool) : option (state * list event) :=
   let tot := sum_deps (p_deps p) in
-  if gov_bal s <? tot then None
-  else if burn then
-    Some ({| props := props s; next_id := next_id s; gov_bal := gov_bal s - tot; bal := bal s;
-             burned := burned s + tot; pool_in := pool_in s; ext := ext s; custom := custom s;
-             gov_spent := gov_spent s |},
-          map (fun da => EvPay (p_id p) (fst da) 0 (snd da)) (p_deps p))
+  let ag := gov_part (p_deps p) in
+  if burn then
+    if gov_bal s <? tot then None
+    else
+      Some ({| props := props s; next_id := next_id s; gov_bal := gov_bal s - tot; bal := bal s;
+               burned := burned s + tot; pool_in := pool_in s; ext := ext s; custom := custom s;
+               gov_spent := gov_spent s |},
+            map (fun da => EvPay (p_id p) (fst da) 0 (snd da)) (p_deps p))
   else
-    Some ({| props := props s; next_id := next_id s; gov_bal := gov_bal s - tot;
-             bal := refund_all (bal s) (p_deps p);
-             burned := burned s; pool_in := pool_in s; ext := ext s; custom := custom s;
-             gov_spent := gov_spent s |},
-          map (fun da => EvPay (p_id p) (fst da) (snd da) 0) (p_deps p)).
+    if (gov_bal s <? before_part (p_deps p) + ag) || (gov_bal s <? tot - ag) then None
+    else
+      Some ({| props := props s; next_id := next_id s; gov_bal := gov_bal s - (tot - ag);
+               bal := refund_all (bal s) (p_deps p);
+               burned := burned s; pool_in := pool_in s; ext := ext s; custom := custom s;
+               gov_spent := gov_spent s - ag |},
+            map (fun da => EvPay (p_id p) (fst da) (snd da) 0) (p_deps p)).
 
 (* ChargeDeposit *)
 Definition charge_of (rate a : Z) : Z := dec_trunc_int (dec_mul (dec_of_int a) rate).
 Fixpoint refund_rest (rate : Z) (b : Z -> Z) (l : list (Z * Z)) : Z -> Z :=
-  match l with [] => b | (d, a) :: r => refund_rest rate (bal_add b d (a - charge_of rate a)) r end.
+  match l with
+  | [] => b
+  | (d, a) :: r =>
+      if d =? gov_acct then refund_rest rate b r else refund_rest rate (bal_add b d (a - charge_of rate a)) r
+  end.
+(* what stays after the charge, per class of record *)
+Definition rest_of (rate : Z) (l : list (Z * Z)) : list (Z * Z) :=
+  map (fun da => (fst da, snd da - charge_of rate (snd da))) l.
 Fixpoint sum_charges (rate : Z) (l : list (Z * Z)) : Z :=
   match l with [] => 0 | (_, a) :: r => charge_of rate a + sum_charges rate r end.
 
@@ -428,19 +468,24 @@ Definition cancel (P : params) (now : Z) (s : state) (pid proposer : Z) : result
       else if negb (p_proposer p =? proposer) then (RErr EProposer, s, [])
       else if negb (is_open (p_status p)) then (RErr EBadStatus, s, [])
       else if (match p_status p with SVoting => p_vend p <? now | _ => false end) then (RErr EVotingEnded, s, [])
+      else if (cancel_ratio P <? 0) || (prec <? cancel_ratio P) then (RErr EInvalid, s, [])
+           (* not a valid Params value; ChargeDeposit would panic in NewCoin on a negative amount *)
       else
         let tot := sum_deps (p_deps p) in
-        if gov_bal s <? tot then (RErr EFunds, s, [])
+        let ch := sum_charges (cancel_ratio P) (p_deps p) in
+        let rest := rest_of (cancel_ratio P) (p_deps p) in
+        let rg := gov_part rest in                 (* the module account's own uncharged part: a self-transfer *)
+        let out := (sum_deps rest - rg) + ch in    (* what really leaves the account *)
+        if (gov_bal s <? before_part rest + rg) || (gov_bal s <? out) then (RErr EFunds, s, [])
         else
-          let ch := sum_charges (cancel_ratio P) (p_deps p) in
           let b1 := refund_rest (cancel_ratio P) (bal s) (p_deps p) in
           (ROk,
            {| props := upd_prop pid (fun q => close_as q SCancelled) (props s); next_id := next_id s;
-              gov_bal := gov_bal s - tot;
+              gov_bal := gov_bal s - out;
               bal := match cancel_dest P with DAcct a => bal_add b1 a ch | _ => b1 end;
               burned := match cancel_dest P with DBurn => burned s + ch | _ => burned s end;
               pool_in := match cancel_dest P with DPool => pool_in s + ch | _ => pool_in s end;
-              ext := ext s; custom := custom s; gov_spent := gov_spent s |},
+              ext := ext s; custom := custom s; gov_spent := gov_spent s - rg |},
            map (fun da => EvPay pid (fst da) (snd da - charge_of (cancel_ratio P) (snd da))
                                 (charge_of (cancel_ratio P) (snd da))) (p_deps p))
   end.
@@ -449,7 +494,8 @@ Definition cancel (P : params) (now : Z) (s : state) (pid proposer : Z) : result
 Record staking := {
   st_vals : list (Z * Z * Z);   (* operator account, bonded tokens, delegator shares (Dec) *)
   st_dels : list (Z * Z * Z);   (* delegator account, validator operator account, shares (Dec) *)
-  st_total_bonded : Z }.
+  st_total_bonded : Z;
+  st_time : Z  (* the block time, again: proposal messages executed by the end blocker see it *) }.
 
 Record vinfo := { v_op : Z; v_bonded : Z; v_shares : Z; v_deduct : Z; v_vote : list (Z * Z) }.
 
@@ -535,8 +581,34 @@ Definition tally (P : params) (kf : keyfun) (cust : list (Z * cparams)) (stk : s
   else {| passes := false; burns := false; tres := tr; q_used := q |}.
 
 (* ------------------------------------------------------------------ abci.go *)
+(* what a proposal message can see of the block it is executed in *)
+Record xenv := { x_P : params; x_kf : keyfun; x_now : Z; x_self : Z (* the proposal being executed *) }.
+
+(* gov MsgDeposit{depositor = module account}: Keeper.AddDeposit with a transfer from the account to
+   itself — nothing moves, the target's total and records grow.  For the proposal being executed
+   itself (still in voting in the store while its messages run) the deposit is accepted as well, but
+   the end blocker then overwrites the proposal with its stale local copy and the new record is never
+   paid: nothing of it shows in what is modelled (the left-over record is not). *)
+Definition gov_deposit (e : xenv) (s : state) (pid amt : Z) : option state :=
+  match find_prop pid (props s) with
+  | None => None
+  | Some p =>
+      let P := x_P e in
+      if negb ((pid =? x_self e)
+               || (negb (is_bad (p_status p)) && negb (is_removed (p_status p)) && is_open (p_status p)))
+      then None
+      else if negb (0 <? amt) then None
+      else if negb (min_deposit_ratio P =? 0) && negb (deposit_threshold P p <=? amt) then None
+      else if gov_bal s <? amt then None
+      else if pid =? x_self e then Some s
+      else
+        Some {| props := upd_prop pid (deposited P (x_kf e) (custom s) (x_now e) gov_acct amt) (props s);
+                next_id := next_id s; gov_bal := gov_bal s; bal := bal s; burned := burned s;
+                pool_in := pool_in s; ext := ext s; custom := custom s; gov_spent := gov_spent s + amt |}
+  end.
+
 (* one proposal message on the cache branch *)
-Definition exec_one (s : state) (m : msg) : option state :=
+Definition exec_one (e : xenv) (s : state) (m : msg) : option state :=
   match m_act m with
   | AOk tag => Some {| props := props s; next_id := next_id s; gov_bal := gov_bal s; bal := bal s;
                        burned := burned s; pool_in := pool_in s; ext := tag :: ext s;
@@ -548,12 +620,13 @@ Definition exec_one (s : state) (m : msg) : option state :=
                 bal := bal_add (bal s) to amt; burned := burned s; pool_in := pool_in s;
                 ext := ext s; custom := custom s; gov_spent := gov_spent s + amt |}
       else None
+  | AGovDeposit pid amt => gov_deposit e s pid amt
   end.
 
-Fixpoint exec_msgs (s : state) (ms : list msg) : option state :=
+Fixpoint exec_msgs (e : xenv) (s : state) (ms : list msg) : option state :=
   match ms with
   | [] => Some s
-  | m :: r => match exec_one s m with Some s' => exec_msgs s' r | None => None end
+  | m :: r => match exec_one e s m with Some s' => exec_msgs e s' r | None => None end
   end.
 
 Definition tallied (p : proposal) (st : status) (v : verdict) : proposal :=
@@ -617,8 +690,14 @@ Definition process_active (P : params) (kf : keyfun) (stk : staking) (s : state)
             | None => None
             | Some (s1, ev) =>
                 if passes v then
-                  match exec_msgs s1 (p_msgs p) with
-                  | Some s2 => Some (set_props s2 (upd_prop id (fun q => tallied q SPassed v) (props s2)), ev)
+                  (* The code runs the messages first and stores status PASSED / FAILED afterwards.
+                     No message reads or changes the stored record of the proposal being executed
+                     (gov_deposit treats x_self apart), so storing PASSED first and running the
+                     messages on that state is the same function — and keeps every intermediate
+                     state well-formed. *)
+                  let sP := set_props s1 (upd_prop id (fun q => tallied q SPassed v) (props s1)) in
+                  match exec_msgs {| x_P := P; x_kf := kf; x_now := st_time stk; x_self := id |} sP (p_msgs p) with
+                  | Some s2 => Some (s2, ev)
                   | None => Some (set_props s1 (upd_prop id (fun q => tallied q SFailed v) (props s1)), ev)
                   end
                 else Some (set_props s1 (upd_prop id (fun q => tallied q SRejected v) (props s1)), ev)
@@ -714,6 +793,9 @@ Definition corrupt (s : state) (pid : Z) : result * state :=
   | None => (RErr EInvalid, s)
   end.
 
+Definition deposit_msg_invalid (amt : Z) (bad_denom : bool) (dep : Z) : bool :=
+  (amt <? 0) || ((amt =? 0) && negb bad_denom) || (dep <? 0) (* account ids are non-negative *).
+
 Definition cparams_valid (cp : cparams) : bool :=
   (0 <? c_period cp) && (0 <=? c_quorum cp) && (c_quorum cp <=? prec)
   && (0 <=? c_ratio cp) && (c_ratio cp <=? prec).
@@ -725,7 +807,7 @@ Definition step (P : params) (kf : keyfun) (s : state) (o : op) : result * state
   | ODeposit now pid dep amt bad_denom =>
       (* validateDeposit: the coins must be valid and positive; a deposit made only of another
          denomination (amt = 0, bad_denom) passes it and is refused by the denomination check *)
-      if (amt <? 0) || ((amt =? 0) && negb bad_denom) then (RErr EInvalid, s, [])
+      if deposit_msg_invalid amt bad_denom dep then (RErr EInvalid, s, [])
       else let '(r, s') := add_deposit P kf now s pid dep amt bad_denom in (r, s', [])
   | OVote pid voter opts weighted => let '(r, s') := vote s pid voter opts weighted in (r, s', [])
   | OCancel now pid proposer => cancel P now s pid proposer
@@ -742,7 +824,7 @@ Definition step (P : params) (kf : keyfun) (s : state) (o : op) : result * state
       if negb authorized then (RErr EAuth, s, [])
       else (ROk, set_custom s (remove_key key (custom s)), [])
   | OBank a d =>
-      if bal s a + d <? 0 then (RErr EFunds, s, [])
+      if (bal s a + d <? 0) || (a <? 0) then (RErr EFunds, s, [])
       else (ROk, {| props := props s; next_id := next_id s; gov_bal := gov_bal s;
                     bal := bal_add (bal s) a d; burned := burned s; pool_in := pool_in s;
                     ext := ext s; custom := custom s; gov_spent := gov_spent s |}, [])
